@@ -2,6 +2,7 @@ package props
 
 import (
 	"fmt"
+	"github.com/AdguardTeam/urlfilter/filterutil"
 	"strings"
 	"testing"
 
@@ -198,6 +199,13 @@ func checkC08(c c08Case, rec *Rec) *Violation {
 }
 
 var c08Patterns = []string{"||example.org^", "example", "|http://example.org/", "||example.org/ads/*", "example.org/", "||google.com^", "/ads/x", "||a.com^", "ab", "-ad-", "/x"} // the last three are too short for the shortcut index
+
+// c08TwinColliders: pairs of $badfilter rule texts (short patterns: sequential table) with equal FastHash.
+var c08TwinColliders = findColliders("x^", "^$badfilter", 3)
+
+// c08ForeignCollider: an unrelated sequential-table rule whose text has the same FastHash as the
+// $badfilter rule "x^zq7^$badfilter" (while "x^zq7^" itself collides with nothing here).
+var c08ForeignCollider = findShortRuleWithHash(filterutil.FastHash("x^zq7^$badfilter"), "$ctag=~nosuchtag")
 
 func c08Mutate(t *rapid.T, m NetModel) NetModel {
 	y := m
@@ -415,6 +423,30 @@ func genC08(t *rapid.T) c08Case {
 		}
 		add(tw, true)
 	}
+	if chance(t, "twins-with-colliding-texts", 8) && len(c08TwinColliders) > 0 {
+		// two pairs in the sequential table whose $badfilter rules have texts with the same FastHash
+		cp := pick(t, "twin-collider", c08TwinColliders)
+		li := rapid.IntRange(0, nl-1).Draw(t, "tc-list")
+		for k, tw := range cp {
+			pat := strings.TrimSuffix(tw, "$badfilter")
+			m := NetModel{Pat: pat}
+			mt := m
+			mt.Extra = []string{"badfilter"}
+			c.Lines = append(c.Lines, c08Line{Text: pat, Model: m, List: li, Pos: 10 + k, Extra: true}, c08Line{Text: tw, Model: mt, List: li, Pos: 20 + k, Extra: true})
+			c.Reqs = append(c.Reqs, Q{URL: "http://h.com/" + strings.ReplaceAll(pat, "^", "/"), Typ: "script"})
+		}
+	}
+	if chance(t, "twin-colliding-with-a-foreign-rule", 8) && c08ForeignCollider != "" {
+		// the base list holds an unrelated rule; the added pair's $badfilter text has the same FastHash as that rule's text
+		li := rapid.IntRange(0, nl-1).Draw(t, "fc-list")
+		foreign := NetModel{Pat: strings.TrimSuffix(c08ForeignCollider, "$ctag=~nosuchtag"), GRestr: []string{"nosuchtag"}}
+		m := NetModel{Pat: "x^zq7^"}
+		mt := m
+		mt.Extra = []string{"badfilter"}
+		c.Lines = append(c.Lines, c08Line{Text: c08ForeignCollider, Model: foreign, List: li, Pos: 1, Extra: false},
+			c08Line{Text: "x^zq7^", Model: m, List: li, Pos: 30, Extra: true}, c08Line{Text: "x^zq7^$badfilter", Model: mt, List: li, Pos: 31, Extra: true})
+		c.Reqs = append(c.Reqs, Q{URL: "http://h.com/x/zq7/", Typ: "script"}, Q{URL: "http://h.com/" + strings.ReplaceAll(foreign.Pat, "^", "/"), Typ: "script"})
+	}
 	if chance(t, "pair-around-the-block-size", 8) {
 		// a rule that still fits into the list reader's block while its twin (",badfilter" appended) does not
 		L := rapid.IntRange(4080, 4100).Draw(t, "pair-len")
@@ -461,6 +493,10 @@ func genC08(t *rapid.T) c08Case {
 		q := genQNear(t, m)
 		if chance(t, "exact", 2) {
 			q = repairQ(t, q, m)
+		}
+		if !q.Host && chance(t, "longer-in-lower-case", 8) {
+			// a letter whose lower-case form takes more bytes, and a rule's text at the very end of the URL
+			q.URL = "http://example.org/\u023a" + pick(t, "lil-tail", []string{"/ads/x", "/example", "/example.org/", "\u023a/ads/x", "/q?example.org/ads/"})
 		}
 		if len(hashSrc) > 0 && !q.Host && chance(t, "hash-src", 2) {
 			q.Src = "http://" + pick(t, "hash-src-host", hashSrc) + "/"
